@@ -76,15 +76,24 @@ func (r *schedReader) Read(p []byte) (int, error) {
 type schedSeeker struct{ schedReader }
 
 func (r *schedSeeker) Seek(off int64, whence int) (int64, error) {
-	if whence != io.SeekStart {
+	switch whence {
+	case io.SeekStart:
+	case io.SeekCurrent:
+		off += int64(r.off)
+	case io.SeekEnd:
+		off += int64(len(r.b))
+	default:
 		return 0, errors.New("unsupported whence")
+	}
+	if off < 0 {
+		return 0, errors.New("negative position")
 	}
 	r.off = int(off)
 	return off, nil
 }
 
 type c08Cfg struct {
-	Kind string // bytes bufio plain seek
+	Kind string // bytes bufio plain seek seekoff
 	Auto bool
 	K    int // packet size 188+k
 }
@@ -99,6 +108,14 @@ func c08Reader(cfg c08Cfg, b []byte, chunk int, env *mc.Env) io.Reader {
 		return bufio.NewReader(&schedReader{b: b, chunk: chunk, env: env})
 	case "seek":
 		return &schedSeeker{schedReader{b: b, chunk: chunk, env: env}}
+	case "seekoff":
+		// a seekable reader that does not stand at offset 0 when the Demuxer gets it (the stream follows
+		// 300 bytes of something else): the stream is what the reader delivers from where it stands
+		pre := bytes.Repeat([]byte{0xaa, 0x47, 0x00}, 100)
+		if chunk < 0 {
+			chunk -= len(pre)
+		}
+		return &schedSeeker{schedReader{b: append(pre, b...), off: len(pre), chunk: chunk, env: env}}
 	}
 	return &schedReader{b: b, chunk: chunk, env: env}
 }
@@ -158,7 +175,7 @@ func checkC08(c *mc.Ctx) {
 		"bufio.Reader with the default 4096-byte buffer")
 	streams := append(StandardStreams(c.Seed), TinyPayloadStream(c.Seed), SyncLookalikeStream(c.Seed))
 	var cfgs []c08Cfg
-	for _, kind := range []string{"bytes", "bufio", "plain", "seek"} {
+	for _, kind := range []string{"bytes", "bufio", "plain", "seek", "seekoff"} {
 		for _, k := range []int{0, 1, 2, 3, 4, 16} {
 			cfgs = append(cfgs, c08Cfg{kind, false, k})
 			if k <= 4 {
@@ -229,7 +246,7 @@ func checkC08(c *mc.Ctx) {
 			}
 		})
 		c.Ev.AddScenario(mc.Scenario{Name: "fixed-chunks:" + st.Name, SpaceSize: total, Executed: done, Exhaustive: done == total,
-			Bound: "every chunk size 1..400 and a single chunk boundary at every offset 1..400 x {bufio, plain, seekable} x {explicit, auto} x packet size 188+k, k in {0,1,2,3,4,16} (auto: k<=4); bytes.Reader once per configuration"})
+			Bound: "every chunk size 1..400 and a single chunk boundary at every offset 1..400 x {bufio, plain, seekable, seekable standing at a non-zero offset} x {explicit, auto} x packet size 188+k, k in {0,1,2,3,4,16} (auto: k<=4); bytes.Reader once per configuration"})
 		// deviation-bounded short reads
 		bound := 2
 		if c.Thorough() {
